@@ -1116,6 +1116,10 @@ def explore_c17(tier, seed):
             if not np.array_equal(part[0][r], part[1][r], equal_nan=True):
                 viol(res, "C17", f"the same partial run gives different records ({r}) depending on what else ran in the process")
                 break
+        # the caller's table object used for a model, edited, and used again
+        for v in paired.table_reuse(scs[0], None, s, pid="C17"):
+            res["paired_runs"] += 1
+            res["violations"].append({"violation": v, "scenario": scs[0]})
         # isolated references
         refs = [paired.run_records(copy.deepcopy(sc)) for sc in scs]
         again = [paired.run_records(copy.deepcopy(sc)) for sc in scs]
